@@ -410,6 +410,12 @@ def _expand_named_facts(dom, facts, rdf, depth=0):
         if fa.polarity not in (True, False) or fa.origin is None or fa.origin.kind != 'branch':
             continue
         e = fa.expr
+        if isinstance(e, ast.Call) and getattr(dom, 'pred_resolver', None) is not None:
+            # (c) a predicate extracted into a method of the same class: `if self._all_parts_skipped():`
+            body = dom.pred_resolver(e)
+            if body is not None:
+                extra += _expand_named_facts(dom, facts_of(body, fa.polarity, fa.origin), rdf, depth + 1)
+            continue
         name = None
         consistent = None
         if isinstance(e, ast.Name):
